@@ -137,8 +137,8 @@ pub fn run_plan_realfs(plan: &SimPlan) -> PlanResult {
                 rec.stdout = stdout;
                 rec.stderr = stderr;
                 rec.outcome = match r {
-                    Ok(Ok(())) => Outcome::Ok,
-                    Ok(Err(())) => Outcome::Err,
+                    Ok(res) if res.is_ok() => Outcome::Ok,
+                    Ok(_) => Outcome::Err,
                     Err(_) => Outcome::Panic(seams::take_last_panic().unwrap_or_else(|| "<panic>".to_string())),
                 };
                 let mut after = BTreeMap::new();
